@@ -31,22 +31,23 @@ type vRefRec struct {
 }
 
 type vLogCase struct {
-	id      int
-	profile string
-	dir     string
-	opts    Options
-	l       *commitLog
-	ref     []vRefRec // abstract log (spec): what must be readable
-	ops     []vM
-	out     *vOut
-	viol    bool
-	nextTs  int64
-	epoch   uint64
-	stats   map[string]int
-	readers []*vLiveReader
-	hook    *vHookLogger
-	tag     string // appended to violation signatures (C05: the crash point the log was recovered from)
-	extra   vM     // further fields of the replay record
+	id         int
+	profile    string
+	dir        string
+	opts       Options
+	l          *commitLog
+	ref        []vRefRec // abstract log (spec): what must be readable
+	ops        []vM
+	out        *vOut
+	viol       bool
+	nextTs     int64
+	epoch      uint64
+	stats      map[string]int
+	readers    []*vLiveReader
+	hook       *vHookLogger
+	tag        string // appended to violation signatures (C05: the crash point the log was recovered from)
+	extra      vM     // further fields of the replay record
+	clockSteps bool   // message timestamps may go back (C09 age limit on non-monotonic write times)
 }
 
 // vLiveReader is a Reader kept across operations.
@@ -114,6 +115,14 @@ func vGenBytes(r *vRand, allowNil bool) []byte {
 
 func (c *vLogCase) genMsg(r *vRand, keyPool [][]byte) *Message {
 	c.nextTs += int64(1 + r.intn(5))
+	if c.clockSteps && r.intn(7) == 0 {
+		// the leader's clock steps back: last-write times of segments are then not monotonic
+		c.nextTs -= int64(5 + r.intn(25))
+		if c.nextTs < 1001 {
+			c.nextTs = 1001
+		}
+		c.stats["clock-step-back"]++
+	}
 	if r.intn(12) == 0 {
 		c.epoch += uint64(1 + r.intn(2))
 	}
@@ -832,8 +841,19 @@ func (c *vLogCase) doCleanRetentionDuring(ttl int64, batches [][]*Message) {
 			c.violation("retention-limit-bytes", fmt.Sprintf("%d bytes retained in %d segments, limit %d", bytes, len(after), c.opts.MaxLogBytes))
 		}
 		if c.opts.MaxLogAge > 0 {
-			for _, s := range after[:len(after)-1] {
-				if s.lastTs < ttl {
+			// the age limit removes expired segments from the front and stops at the first one that is
+			// not expired (removing an expired segment behind a younger one would leave a hole): every
+			// segment before that one must be gone.  With monotonic write times this is "no retained
+			// segment but the newest is expired".
+			stop := len(before) - 1
+			for k := 0; k < len(before)-1; k++ {
+				if before[k].lastTs >= ttl {
+					stop = k
+					break
+				}
+			}
+			for i, s := range after[:len(after)-1] {
+				if d+i < stop {
 					c.violation("retention-limit-age", fmt.Sprintf("segment %d last written at %d retained, cut-off %d", s.base, s.lastTs, ttl))
 				}
 			}
@@ -885,6 +905,7 @@ func vRunC09Case(out *vOut, r *vRand, id int, stats map[string]int) {
 		return
 	}
 	c.hook = hk
+	c.clockSteps = opts.MaxLogAge > 0 && r.intn(2) == 0
 	old := computeTTL
 	computeTTL = func(time.Duration) int64 { return vPinnedTTL }
 	defer func() { computeTTL = old }()
